@@ -121,9 +121,20 @@ def unit_expr(expr, what, var2):
 UNIT_ORDER = ['In', 'Cm', 'Mm', 'Pt', 'Pc']
 
 
-def parse_tables(rd):
-    """-> dict with everything extracted (raises Missing on a lost anchor).  `rd(rel)` reads a repo file."""
-    t = {}
+def parse_tables(rd, strict=True):
+    """-> dict with everything extracted.  `rd(rel)` reads a repo file.  A lost anchor raises Missing when
+    `strict`; otherwise the messages are collected in t['errors'] and the pieces that were found are returned
+    (the check uses this to keep generating inputs when the tie is broken)."""
+    t = {'errors': []}
+
+    def step(f):
+        try:
+            f()
+        except (Missing, ValueError, IndexError) as e:
+            if strict:
+                raise
+            t['errors'].append(str(e))
+
     names = rd(NAMES)
     t['eids'] = enum_ctors(names, 'EId')
     t['aids'] = enum_ctors(names, 'AId')
@@ -137,92 +148,148 @@ def parse_tables(rd):
     aset = set(t['aids'])
 
     modrs = strip_comments(rd(MODRS))
+
+    def classes(fn):
+        def go():
+            t[fn] = matches_fn(modrs, fn)
+            for a in t[fn]:
+                if a not in aset:
+                    raise Missing("%s lists unknown AId::%s" % (fn, a))
+        return go
     for fn in ('is_presentation', 'allows_inherit_value', 'is_non_inheritable'):
-        t[fn] = matches_fn(modrs, fn)
-        for a in t[fn]:
-            if a not in aset:
-                raise Missing("%s lists unknown AId::%s" % (fn, a))
-    body = re.sub(r"\s+", " ", fn_body(modrs, 'is_inheritable')).strip()
-    if body != "if self.is_presentation() { !is_non_inheritable(*self) } else { false }":
-        raise Missing("is_inheritable: body changed: %r" % body)
-    # find_attribute_impl: the two branches (ancestor walk / self-or-parent) are modelled by hand; their
-    # presence is anchored here, their behaviour is tied by the `cascade` correspondence.
-    fa = re.sub(r"\s+", " ", fn_body(modrs, 'find_attribute_impl'))
-    for frag in ("if aid.is_inheritable() {", "for n in self.ancestors() {", "if n.has_attribute(aid) {",
-                 "if self.has_attribute(aid) {", "let n = self.parent_element()?;"):
-        if frag not in fa:
-            raise Missing("find_attribute_impl: fragment %r not found" % frag)
+        step(classes(fn))
+
+    def inheritable():
+        body = re.sub(r"\s+", " ", fn_body(modrs, 'is_inheritable')).strip()
+        if body != "if self.is_presentation() { !is_non_inheritable(*self) } else { false }":
+            raise Missing("is_inheritable: body changed: %r" % body)
+    step(inheritable)
+
+    def find_attr():
+        # find_attribute_impl: the two branches (ancestor walk / self-or-parent) are modelled by hand; their
+        # presence is anchored here, their behaviour is tied by the correspondences.
+        fa = re.sub(r"\s+", " ", fn_body(modrs, 'find_attribute_impl'))
+        for frag in ("if aid.is_inheritable() {", "for n in self.ancestors() {", "if n.has_attribute(aid) {",
+                     "if self.has_attribute(aid) {", "let n = self.parent_element()?;"):
+            if frag not in fa:
+                raise Missing("find_attribute_impl: fragment %r not found" % frag)
+    step(find_attr)
 
     parse = strip_comments(rd(PARSE))
     pse = fn_body(parse, 'parse_svg_element')
-    m = one(r"if matches!\(aid,\s*([^)]*)\)\s*\{\s*continue;\s*\}", pse, "style-only skip list")
-    t['style_only'] = aid_list(m.group(1), "style-only skip list")
-    m = one(r"else if aid == AId::(\w+)\s*&&\s*matches!\(\s*attr\.value\(\)\s*,\s*((?:\"[^\"]*\"\s*\|?\s*)+)\)\s*\{\s*continue;",
-            pse, "image-rendering skip")
-    t['css_only_value_attr'] = m.group(1)
-    t['css_only_values'] = re.findall(r'"([^"]*)"', m.group(2))
-    m = one(r"if ignore_ids && aid == AId::(\w+) \{\s*continue;", pse, "ignore_ids skip")
-    t['ignored_id_attr'] = m.group(1)
-    m = one(r"let has_precedence = (.*?);", pse, "has_precedence")
-    hp = re.sub(r"\s+", "", m.group(1))
-    if hp == "!doc.attrs[existing_idx].important":
-        t['has_precedence'] = "negb existing_important"
-    else:
-        raise Missing("insert_attribute: has_precedence expression changed: %r" % m.group(1))
     sw = re.sub(r"\s+", " ", pse)
-    if "if has_precedence { doc.attrs.swap(existing_idx, last_idx); } doc.attrs.pop();" not in sw:
-        raise Missing("insert_attribute: swap/pop sequence changed")
-    m = one(r'if declaration\.name == "marker" \{((?:\s*insert_attribute\(AId::\w+, val, imp\);)+)\s*\}', pse,
-            "marker shorthand")
-    t['marker_shorthand'] = re.findall(r"AId::(\w+)", m.group(1))
-    if "if aid.is_presentation() { insert_attribute(aid, val, imp); }" not in sw:
-        raise Missing("write_declaration: presentation filter changed")
+
+    def style_only():
+        m = one(r"if matches!\(aid,\s*([^)]*)\)\s*\{\s*continue;\s*\}", pse, "style-only skip list")
+        t['style_only'] = aid_list(m.group(1), "style-only skip list")
+    step(style_only)
+
+    def css_only():
+        m = one(r"else if aid == AId::(\w+)\s*&&\s*matches!\(\s*attr\.value\(\)\s*,\s*((?:\"[^\"]*\"\s*\|?\s*)+)\)\s*\{\s*continue;",
+                pse, "image-rendering skip")
+        t['css_only_value_attr'] = m.group(1)
+        t['css_only_values'] = re.findall(r'"([^"]*)"', m.group(2))
+    step(css_only)
+
+    def ignore_ids():
+        m = one(r"if ignore_ids && aid == AId::(\w+) \{\s*continue;", pse, "ignore_ids skip")
+        t['ignored_id_attr'] = m.group(1)
+    step(ignore_ids)
+
+    def precedence():
+        m = one(r"let has_precedence = (.*?);", pse, "has_precedence")
+        hp = re.sub(r"\s+", "", m.group(1))
+        if hp == "!doc.attrs[existing_idx].important":
+            t['has_precedence'] = "negb existing_important"
+        else:
+            raise Missing("insert_attribute: has_precedence expression changed: %r" % m.group(1))
+        if "if has_precedence { doc.attrs.swap(existing_idx, last_idx); } doc.attrs.pop();" not in sw:
+            raise Missing("insert_attribute: swap/pop sequence changed")
+    step(precedence)
+
+    def marker():
+        m = one(r'if declaration\.name == "marker" \{((?:\s*insert_attribute\(AId::\w+, val, imp\);)+)\s*\}', pse,
+                "marker shorthand")
+        t['marker_shorthand'] = re.findall(r"AId::(\w+)", m.group(1))
+    step(marker)
+
+    def pres_filter():
+        if "if aid.is_presentation() { insert_attribute(aid, val, imp); }" not in sw:
+            raise Missing("write_declaration: presentation filter changed")
+    step(pres_filter)
+
+    def order():
+        # attributes, then CSS, then the style attribute
+        i1 = sw.find("for attr in xml_node.attributes() {")
+        i2 = sw.find("for rule in &style_sheet.rules {")
+        i3 = sw.find('if let Some(value) = xml_node.attribute("style") {')
+        if not (0 <= i1 < i2 < i3):
+            raise Missing("parse_svg_element: the order attributes / CSS / style attribute changed")
+    step(order)
 
     apa = fn_body(parse, 'append_attribute', generic=True)
-    m = one(r"match aid \{\s*((?:AId::\w+\s*\|?\s*)+)=>\s*return false,\s*_ => \{\}\s*\}", apa, "dropped attributes")
-    t['dropped'] = aid_list(m.group(1), "dropped attributes")
-    m = one(r"if tag_name == EId::(\w+) && aid == AId::(\w+) \{\s*return false;", apa, "tspan/href rule")
-    t['dropped_on'] = (m.group(1), m.group(2))
-    m = one(r'if aid\.allows_inherit_value\(\) && &\*value == "([^"]*)" \{\s*return resolve_inherit\(parent_id, aid, doc\);',
-            apa, "inherit keyword test")
-    t['inherit_keyword'] = m.group(1)
+
+    def dropped():
+        m = one(r"match aid \{\s*((?:AId::\w+\s*\|?\s*)+)=>\s*return false,\s*_ => \{\}\s*\}", apa, "dropped attributes")
+        t['dropped'] = aid_list(m.group(1), "dropped attributes")
+    step(dropped)
+
+    def dropped_on():
+        m = one(r"if tag_name == EId::(\w+) && aid == AId::(\w+) \{\s*return false;", apa, "tspan/href rule")
+        t['dropped_on'] = (m.group(1), m.group(2))
+    step(dropped_on)
+
+    def keyword():
+        m = one(r'if aid\.allows_inherit_value\(\) && &\*value == "([^"]*)" \{\s*return resolve_inherit\(parent_id, aid, doc\);',
+                apa, "inherit keyword test")
+        t['inherit_keyword'] = m.group(1)
+    step(keyword)
 
     ri = fn_body(parse, 'resolve_inherit')
-    m = one(r"let value = match aid \{(.*?)_ => return false,\s*\};", ri, "resolve_inherit default table")
-    arms = re.findall(r"((?:AId::\w+\s*\|?\s*)+)=>\s*\"([^\"]*)\"\s*,", m.group(1))
-    rest = re.sub(r"((?:AId::\w+\s*\|?\s*)+)=>\s*\"([^\"]*)\"\s*,", "", m.group(1)).strip()
-    if rest or not arms:
-        raise Missing("resolve_inherit default table: unparsed text %r" % rest[:60])
-    dt = []
-    for pats, val in arms:
-        for a in aid_list(pats, "resolve_inherit default table"):
-            if a not in aset:
-                raise Missing("default table lists unknown AId::%s" % a)
-            dt.append((a, val))
-    if len(set(a for a, _ in dt)) != len(dt):
-        raise Missing("resolve_inherit default table: attribute listed twice")
-    t['inherit_default'] = dt
-    rin = re.sub(r"\s+", " ", ri)
-    for frag in ("if aid.is_inheritable() {", ".ancestors() .find(|n| n.has_attribute(aid))",
-                 "important: attr.important,", "doc.append_attribute(aid, roxmltree::StringStorage::Borrowed(value), false);"):
-        if frag not in rin:
-            raise Missing("resolve_inherit: fragment %r not found" % frag)
-    t['inherit_copies_important'] = True
+
+    def defaults():
+        m = one(r"let value = match aid \{(.*?)_ => return false,\s*\};", ri, "resolve_inherit default table")
+        arms = re.findall(r"((?:AId::\w+\s*\|?\s*)+)=>\s*\"([^\"]*)\"\s*,", m.group(1))
+        rest = re.sub(r"((?:AId::\w+\s*\|?\s*)+)=>\s*\"([^\"]*)\"\s*,", "", m.group(1)).strip()
+        if rest or not arms:
+            raise Missing("resolve_inherit default table: unparsed text %r" % rest[:60])
+        dt = []
+        for pats, val in arms:
+            for a in aid_list(pats, "resolve_inherit default table"):
+                if a not in aset:
+                    raise Missing("default table lists unknown AId::%s" % a)
+                dt.append((a, val))
+        if len(set(a for a, _ in dt)) != len(dt):
+            raise Missing("resolve_inherit default table: attribute listed twice")
+        t['inherit_default'] = dt
+    step(defaults)
+
+    def inherit_flow():
+        rin = re.sub(r"\s+", " ", ri)
+        for frag in ("if aid.is_inheritable() {", ".get(parent_id) .ancestors() .find(|n| n.has_attribute(aid))",
+                     "} else { if let Some(attr) = doc .get(parent_id) .attributes() .iter() .find(|a| a.name == aid)",
+                     "important: attr.important,", "doc.append_attribute(aid, roxmltree::StringStorage::Borrowed(value), false);"):
+            if frag not in rin:
+                raise Missing("resolve_inherit: fragment %r not found" % frag)
+    step(inherit_flow)
 
     units = strip_comments(rd(UNITS))
     fsz = fn_body(units, 'resolve_font_size')
     t['fs'] = {}
-    m = one(r"Unit::None \| Unit::Px => (\w+),", fsz, "resolve_font_size px arm")
-    if m.group(1) != 'n' or not re.search(r"let dpi = state\.opt\.dpi;\s*let n = length\.number as f32;", fsz):
-        raise Missing("resolve_font_size: px arm / bindings of dpi and n changed")
-    for u in UNIT_ORDER:
-        m = one(r"Unit::%s => ([^,]+)," % u, fsz, "resolve_font_size arm " + u)
-        t['fs'][u] = unit_expr(m.group(1).strip(), "resolve_font_size " + u, ('dpi',))
-    for u, var in (('Em', 'font_size'), ('Ex', 'font_size')):
-        m = one(r"Unit::%s => ([^,]+)," % u, fsz, "resolve_font_size arm " + u)
-        t['fs'][u] = unit_expr(m.group(1).strip(), "resolve_font_size " + u, ('font_size',))
-    m = one(r"Unit::Percent => \{\s*(length\.number as f32 \* font_size \* [\d.]+)\s*\}", fsz, "resolve_font_size arm Percent")
-    t['fs']['Percent'] = unit_expr(m.group(1).replace('length.number as f32', 'n'), "resolve_font_size Percent", ('font_size',))
+
+    def font_size():
+        m = one(r"Unit::None \| Unit::Px => (\w+),", fsz, "resolve_font_size px arm")
+        if m.group(1) != 'n' or not re.search(r"let dpi = state\.opt\.dpi;\s*let n = length\.number as f32;", fsz):
+            raise Missing("resolve_font_size: px arm / bindings of dpi and n changed")
+        for u in UNIT_ORDER:
+            m = one(r"Unit::%s => ([^,]+)," % u, fsz, "resolve_font_size arm " + u)
+            t['fs'][u] = unit_expr(m.group(1).strip(), "resolve_font_size " + u, ('dpi',))
+        for u in ('Em', 'Ex'):
+            m = one(r"Unit::%s => ([^,]+)," % u, fsz, "resolve_font_size arm " + u)
+            t['fs'][u] = unit_expr(m.group(1).strip(), "resolve_font_size " + u, ('font_size',))
+        m = one(r"Unit::Percent => \{\s*(length\.number as f32 \* font_size \* [\d.]+)\s*\}", fsz, "resolve_font_size arm Percent")
+        t['fs']['Percent'] = unit_expr(m.group(1).replace('length.number as f32', 'n'), "resolve_font_size Percent", ('font_size',))
+    step(font_size)
     return t
 
 
@@ -275,12 +342,24 @@ def render(t, header):
     return "\n".join(o) + "\n"
 
 
+NEEDED = ('is_presentation', 'allows_inherit_value', 'is_non_inheritable', 'style_only', 'css_only_value_attr',
+          'css_only_values', 'ignored_id_attr', 'dropped', 'dropped_on', 'inherit_keyword', 'marker_shorthand',
+          'has_precedence', 'inherit_default')
+
+
 def generate(api):
     try:
-        t = parse_tables(api.rd)
+        t = parse_tables(api.rd, strict=False)
     except (Missing, OSError, ValueError, IndexError) as e:
         api.broken('table', 'SvgTables', PROPS, e)
         return
-    api.write_gen('SvgTables.v', render(t, api.HEADER))
-    api.ok('tables', 'SvgTables', props=PROPS, aids=len(t['aids']), eids=len(t['eids']),
-           presentation=len(t['is_presentation']), defaults=len(t['inherit_default']))
+    if t['errors']:
+        api.broken('table', 'SvgTables', PROPS, '; '.join(t['errors']))
+    # a lost control-flow anchor is a broken tie, but the tables that could still be read are written, so that the
+    # model the correspondences run against is never an arbitrary older state
+    fs_ok = all(u in t.get('fs', {}) for u in UNIT_ORDER + ['Em', 'Ex', 'Percent'])
+    if all(k in t for k in NEEDED) and fs_ok:
+        api.write_gen('SvgTables.v', render(t, api.HEADER))
+        if not t['errors']:
+            api.ok('tables', 'SvgTables', props=PROPS, aids=len(t['aids']), eids=len(t['eids']),
+                   presentation=len(t['is_presentation']), defaults=len(t['inherit_default']))
